@@ -1023,15 +1023,22 @@ func (pc *PartitionContext) reserve(app *objects.Application, node *objects.Node
 			zap.String("new nodeID", node.NodeID))
 		pc.unReserve(app, pc.nodes.GetNode(nodeID), ask)
 	}
-	// all ok, add the reservation to the app, this will also reserve the node
+	queue := app.GetQueue()
+	if queue == nil {
+		log.Log(log.SchedPartition).Debug("Failed to handle reservation, application is no longer linked to a queue",
+			zap.String("appID", appID))
+		return
+	}
+	// add the reservation to the queue list first: as soon as the application holds the reservation the RM can
+	// remove the ask, or the application, which removes the reservation from the application and the queue list
+	queue.Reserve(appID)
+	// add the reservation to the app, this will also reserve the node
 	if err := app.Reserve(node, ask); err != nil {
 		log.Log(log.SchedPartition).Debug("Failed to handle reservation, error during update of app",
 			zap.Error(err))
+		queue.UnReserve(appID, 1)
 		return
 	}
-
-	// add the reservation to the queue list
-	app.GetQueue().Reserve(appID)
 	pc.incReservationCount()
 
 	log.Log(log.SchedPartition).Info("allocation ask is reserved",
